@@ -25,14 +25,17 @@ pub struct Profile {
 	pub mid_settles: bool,
 	pub allow_restart: bool,
 	pub allow_force_close: bool,
+	/// model of manager persistence: the scenario writes the manager out often (like a background processor)
+	pub persist_manager_often: bool,
 }
 impl Profile {
 	pub fn for_prop(prop: &str, thorough: bool) -> Profile {
-		let base = Profile { prop: prop.to_string(), steps: if thorough { 1500 } else { 600 }, nodes: 2, allow_async: false, allow_deferred: false, allow_disconnect: true, allow_fee_updates: true, allow_ticks: true, coop_close_at_end: true, multi_hop: false, mid_settles: true, allow_restart: false, allow_force_close: false };
+		let base = Profile { prop: prop.to_string(), steps: if thorough { 1500 } else { 600 }, nodes: 2, allow_async: false, allow_deferred: false, allow_disconnect: true, allow_fee_updates: true, allow_ticks: true, coop_close_at_end: true, multi_hop: false, mid_settles: true, allow_restart: false, allow_force_close: false, persist_manager_often: false };
 		match prop {
 			"C01" => base,
 			"C05" => Profile { allow_async: true, allow_restart: true, allow_force_close: true, ..base },
 			"C09" => Profile { allow_async: true, allow_deferred: true, nodes: 3, multi_hop: true, allow_restart: true, ..base },
+			"C10" => Profile { allow_async: true, allow_deferred: true, nodes: 3, multi_hop: true, allow_restart: true, persist_manager_often: true, ..base },
 			_ => base,
 		}
 	}
@@ -120,15 +123,29 @@ pub fn amount_for(rng: &mut Rng, lo: u64, hi: u64) -> u64 {
 }
 
 /// One complete run. Returns the violations raised (already recorded in `rep`).
-pub fn run_one(args: &Args, prof: &Profile, run: u64, rep: &mut Report, make_monitors: &(dyn Fn() -> Vec<Box<dyn Monitor>> + Sync)) {
+#[derive(Clone, Debug, Default)]
+pub struct RunStats {
+	/// durable writes (monitor persists) issued by each node during the run
+	pub writes: Vec<u64>,
+	pub crashed: bool,
+}
+/// A crash to inject: node `victim` dies at its `at_write`-th durable write.
+#[derive(Clone, Copy, Debug)]
+pub struct Crash {
+	pub victim: usize,
+	pub at_write: u64,
+	pub second_after: Option<u64>,
+}
+
+pub fn run_one(args: &Args, prof: &Profile, run: u64, rep: &mut Report, make_monitors: &(dyn Fn() -> Vec<Box<dyn Monitor>> + Sync), crash: Option<Crash>) -> RunStats {
 	// A fresh thread per run: std's per-thread hash-map key counter restarts, so that (with the
 	// fixed `getrandom`) a run is a pure function of (seed, run index) whatever ran before it.
 	std::thread::scope(|s| {
-		std::thread::Builder::new().stack_size(256 << 20).spawn_scoped(s, || run_one_inner(args, prof, run, rep, make_monitors)).expect("spawn").join().expect("run thread");
-	});
+		std::thread::Builder::new().stack_size(256 << 20).spawn_scoped(s, || run_one_inner(args, prof, run, rep, make_monitors, crash)).expect("spawn").join().expect("run thread")
+	})
 }
 
-fn run_one_inner(args: &Args, prof: &Profile, run: u64, rep: &mut Report, make_monitors: &(dyn Fn() -> Vec<Box<dyn Monitor>> + Sync)) {
+fn run_one_inner(args: &Args, prof: &Profile, run: u64, rep: &mut Report, make_monitors: &(dyn Fn() -> Vec<Box<dyn Monitor>> + Sync), crash: Option<Crash>) -> RunStats {
 	let mut rng = Rng::derive(args.seed, run, 0xC0FFEE);
 	let trace = args.flag("trace");
 	let ctype = *rng.pick(&[ChanType::Legacy, ChanType::Anchors, ChanType::Anchors, ChanType::ZeroFee]);
@@ -150,7 +167,7 @@ fn run_one_inner(args: &Args, prof: &Profile, run: u64, rep: &mut Report, make_m
 	}
 	let w = World::new(rng.clone(), cfgs, fee_now, trace);
 	let mut sim = Sim { w, mons: make_monitors(), commit_mon_idx: None, raised: vec![], label: label.clone() };
-	let result = vcore::guarded(|| drive(&mut sim, prof, &mut rng, rep, ctype));
+	let result = vcore::guarded(|| drive(&mut sim, prof, &mut rng, rep, ctype, crash));
 	let mut outcome = "completed".to_string();
 	match result {
 		Ok(Ok(())) => {},
@@ -179,9 +196,9 @@ fn run_one_inner(args: &Args, prof: &Profile, run: u64, rep: &mut Report, make_m
 	rep.evaluations += 1;
 	if sim.raised.is_empty() {
 		if rep.samples.len() < rep.max_samples && run % 7 == 0 {
-			rep.sample(Json::obj().set("run", label.clone()).set("outcome", outcome).set("last_actions", Json::Arr(sim.w.script.iter().rev().take(12).rev().map(|s| Json::Str(s.clone())).collect())));
+			rep.sample(Json::obj().set("run", label.clone()).set("crash", format!("{:?}", crash)).set("outcome", outcome).set("last_actions", Json::Arr(sim.w.script.iter().rev().take(12).rev().map(|s| Json::Str(s.clone())).collect())));
 		}
-		return;
+		return stats(&sim, crash);
 	}
 	// witness / replay file
 	let body = Json::obj()
@@ -193,14 +210,19 @@ fn run_one_inner(args: &Args, prof: &Profile, run: u64, rep: &mut Report, make_m
 		.set("actions_tail", Json::Arr(sim.w.script.iter().map(|s| Json::Str(s.clone())).collect()))
 		.set("tap_tail", Json::Arr(sim.w.log.tail_text(80).into_iter().map(Json::Str).collect()))
 		.set("ldk_log_tail", Json::Arr(sim.w.nodes.iter().flat_map(|n| n.logger.tail()).map(Json::Str).collect()))
-		.set("how_to_replay", format!("./check {} --seed {} only_run={} trace=1   (runs are a pure function of seed and run index)", prof.prop, args.seed, run));
-	let path = args.write_replay(&format!("{}-seed{}-run{}", sim.raised[0].1, args.seed, run), &body);
+		.set("crash", format!("{:?}", crash)).set("how_to_replay", format!("./check {} --seed {} only_run={} trace=1   (runs are a pure function of seed, run index and injected crash)", prof.prop, args.seed, run));
+	let path = args.write_replay(&format!("{}-seed{}-run{}{}", sim.raised[0].1, args.seed, run, crash.map(|c| format!("-crash{}at{}", c.victim, c.at_write)).unwrap_or_default()), &body);
 	for (p, rule, sig, detail) in sim.raised.drain(..) {
 		rep.violation(&p, &rule, &sig, detail, Some(path.clone()));
 	}
+	stats(&sim, crash)
 }
 
-fn drive(sim: &mut Sim, prof: &Profile, rng: &mut Rng, rep: &mut Report, ctype: ChanType) -> Result<(), String> {
+fn stats(sim: &Sim, crash: Option<Crash>) -> RunStats {
+	RunStats { writes: sim.w.total_writes.iter().enumerate().map(|(i, w)| w - sim.w.writes_at_open.get(i).cloned().unwrap_or(0)).collect(), crashed: crash.is_some() && sim.w.crashes_handled > 0 }
+}
+
+fn drive(sim: &mut Sim, prof: &Profile, rng: &mut Rng, rep: &mut Report, ctype: ChanType, crash: Option<Crash>) -> Result<(), String> {
 	let n = prof.nodes;
 	let mut async_on = vec![false; n];
 	// --- open channels: a line 0-1-2-... ---
@@ -231,6 +253,16 @@ fn drive(sim: &mut Sim, prof: &Profile, rng: &mut Rng, rep: &mut Report, ctype: 
 		}
 	}
 	rep.count("runs_with_channels_open");
+	// crash points are counted from here on (unfunded channels may legitimately be dropped by a crash)
+	if let Some(c) = crash {
+		*sim.w.nodes[c.victim].persister.crash_after.lock().unwrap() = Some(c.at_write);
+	}
+	sim.w.writes_at_open = sim.w.total_writes.clone();
+	if prof.allow_restart {
+		for k in 0..n {
+			sim.w.snapshot(k);
+		}
+	}
 	let mut disconnected: Vec<(usize, usize)> = vec![];
 	let mut mined = 0u32;
 	for _s in 0..prof.steps {
@@ -444,18 +476,11 @@ fn drive(sim: &mut Sim, prof: &Profile, rng: &mut Rng, rep: &mut Report, ctype: 
 					let snap = if nsnaps == 0 || rng.chance(1, 2) { None } else { Some(rng.below(nsnaps as u64) as usize) };
 					let pend = sim.w.nodes[k].persister.pending().len();
 					let reached: Vec<bool> = (0..pend).map(|_| rng.chance(1, 2)).collect();
-					let stale = match snap {
-						Some(s) => sim.w.stale_channels(k, s),
-						None => vec![],
-					};
-					for ci in stale.iter() {
-						sim.w.chans[*ci].fault = Some("restart from a ChannelManager older than the monitor".into());
-					}
-					sim.w.note(format!("RESTART node{} manager={:?} in-flight writes reached disk={:?} stale channels={:?}", k, snap, reached, stale));
+					sim.w.note(format!("RESTART node{} manager={:?} in-flight writes reached disk={:?}", k, snap, reached));
 					let keep_async = async_on[k] && rng.chance(3, 4);
 					async_on[k] = keep_async;
 					match sim.w.restart(k, snap, &reached) {
-						Ok(_) => {
+						Ok(stale) => {
 							if keep_async {
 								sim.w.nodes[k].persister.async_mode.store(true, Ordering::SeqCst);
 							}
@@ -500,6 +525,15 @@ fn drive(sim: &mut Sim, prof: &Profile, rng: &mut Rng, rep: &mut Report, ctype: 
 			},
 		}
 		sim.dispatch(rep);
+		if prof.persist_manager_often {
+			for k in 0..n {
+				if sim.w.nodes[k].mgr.get_and_clear_needs_persistence() && rng.chance(2, 3) && !sim.w.nodes[k].persister.dead.load(Ordering::SeqCst) {
+					sim.w.snapshot(k);
+				}
+			}
+		}
+		handle_crashes(sim, rng, rep, &mut async_on, crash)?;
+		sim.dispatch(rep);
 		if !sim.raised.is_empty() {
 			return Ok(()); // first violation is the witness; stop the run
 		}
@@ -510,8 +544,20 @@ fn drive(sim: &mut Sim, prof: &Profile, rng: &mut Rng, rep: &mut Report, ctype: 
 	// final quiescence
 	sim.w.step += 1;
 	sim.w.note("FINAL SETTLE".to_string());
-	let ok = sim.w.settle(100);
+	let mut ok = sim.w.settle(100);
 	sim.dispatch(rep);
+	if !ok && sim.w.any_dead() {
+		// the armed crash fired during the final settle: recover and settle again
+		handle_crashes(sim, rng, rep, &mut async_on, crash)?;
+		sim.dispatch(rep);
+		ok = sim.w.settle(100);
+		sim.dispatch(rep);
+		if !ok && sim.w.any_dead() {
+			handle_crashes(sim, rng, rep, &mut async_on, crash)?;
+			ok = sim.w.settle(100);
+			sim.dispatch(rep);
+		}
+	}
 	if ok {
 		rep.count("settle_points_reached");
 		rep.count("runs_settled_at_end");
@@ -523,6 +569,55 @@ fn drive(sim: &mut Sim, prof: &Profile, rng: &mut Rng, rep: &mut Report, ctype: 
 		coop_close_all(sim, rng, rep);
 	}
 	sim.end(rep);
+	Ok(())
+}
+
+/// A node whose persister was told to die at its n-th write is dead now: restart it from what is on
+/// disk – the most recently persisted manager and the durable monitors, each in-flight write
+/// having independently reached the disk or not.
+fn handle_crashes(sim: &mut Sim, rng: &mut Rng, rep: &mut Report, async_on: &mut [bool], crash: Option<Crash>) -> Result<(), String> {
+	for k in 0..sim.w.nodes.len() {
+		if !sim.w.nodes[k].persister.dead.load(Ordering::SeqCst) {
+			continue;
+		}
+		let nsnaps = sim.w.nodes[k].snapshots.len();
+		if nsnaps == 0 {
+			return Err("crash before the first manager persist (not explored)".into());
+		}
+		let pend = sim.w.nodes[k].persister.pending().len();
+		let reached: Vec<bool> = (0..pend).map(|_| rng.chance(1, 2)).collect();
+		// the latest persisted manager, or (more lag) an older one
+		let snap = if rng.chance(3, 4) { nsnaps - 1 } else { rng.below(nsnaps as u64) as usize };
+		sim.w.step += 1;
+		sim.w.note(format!("CRASH node{} died at its armed durable write; restart from manager snapshot {} of {}, in-flight writes reached disk={:?}", k, snap, nsnaps, reached));
+		let keep_async = async_on[k];
+		match sim.w.restart(k, Some(snap), &reached) {
+			Ok(stale) => {
+				sim.w.crashes_handled += 1;
+				rep.count("crash_restarts");
+				if !stale.is_empty() {
+					rep.count("crash_restarts_with_stale_manager");
+				}
+				if keep_async {
+					sim.w.nodes[k].persister.async_mode.store(true, Ordering::SeqCst);
+				}
+				if let Some(c) = crash {
+					if let (Some(n2), true) = (c.second_after, sim.w.crashes_handled == 1) {
+						*sim.w.nodes[k].persister.crash_after.lock().unwrap() = Some(n2);
+						rep.count("second_crashes_armed");
+					}
+				}
+				for p in 0..sim.w.nodes.len() {
+					if p != k && !sim.w.chan_between(k, p).is_empty() {
+						sim.w.connect(k, p);
+					}
+				}
+			},
+			Err(e) => {
+				sim.raised.push(("C10".into(), "S1-reload".into(), format!("reload from persisted state failed: {}", vcore::canon(&e)), format!("node{} after crash, snapshot {}: {}", k, snap, e)));
+			},
+		}
+	}
 	Ok(())
 }
 
